@@ -249,6 +249,55 @@ def cmd_selftest(ns):
     return code
 
 
+def run_benign(ns, catalog):
+    """Property-preserving refactors: every listed check must stay silent."""
+    import shutil
+    import tempfile
+
+    bad = 0
+    for entry in catalog.B:
+        if ns.only and not any(o in entry["id"] for o in ns.only):
+            continue
+        scratch = tempfile.mkdtemp(prefix=f"simlab-{entry['id']}-", dir="/tmp")
+        os.rmdir(scratch)
+        subprocess.run(
+            ["git", "-C", "/repo", "worktree", "add", "--detach", "-q", scratch, "HEAD"],
+            check=True,
+        )
+        try:
+            path = os.path.join(scratch, entry["file"])
+            with open(path) as fp:
+                text = fp.read()
+            if text.count(entry["old"]) != 1:
+                raise SystemExit(f"benign {entry['id']}: old text occurs "
+                                 f"{text.count(entry['old'])} times")
+            with open(path, "w") as fp:
+                fp.write(text.replace(entry["old"], entry["new"]))
+            for prop in entry["props"]:
+                proc = subprocess.run(
+                    [sys.executable, os.path.join(HERE, "check.py"), "run", prop,
+                     "--tier", "quick", "--budget", str(ns.budget), "--no-evidence"],
+                    capture_output=True, text=True,
+                    env=dict(os.environ, VERIF_REPO=scratch,
+                             VERIF_SEED=os.environ.get("VERIF_SEED", "0")),
+                )
+                ok = proc.returncode == EXIT_OK
+                bad += 0 if ok else 1
+                lines = [ln for ln in proc.stdout.splitlines()
+                         if ln.startswith("[simlab] C") or "HARNESS" in ln]
+                fired = [ln for ln in proc.stdout.splitlines() if "faults fired" in ln]
+                print(f"[benign] {entry['id']:38s} {prop} "
+                      f"{'SILENT' if ok else 'ALARM(exit %d)' % proc.returncode} "
+                      f"{lines[0][:200] if lines else ''}", flush=True)
+                if "rename" in (fired[0] if fired else ""):
+                    print(f"         {fired[0][:300]}")
+        finally:
+            subprocess.run(["git", "-C", "/repo", "worktree", "remove", "--force", scratch])
+            shutil.rmtree(scratch, ignore_errors=True)
+    print(f"[benign] false alarms: {bad}")
+    return EXIT_OK if not bad else EXIT_VIOLATION
+
+
 def cmd_sensitivity(ns):
     """Apply each catalogued mutant to a scratch worktree and expect the
     property's quick check to report a violation there."""
@@ -258,6 +307,8 @@ def cmd_sensitivity(ns):
     sys.path.insert(0, os.path.join(HERE, "mutants"))
     import catalog
 
+    if ns.benign:
+        return run_benign(ns, catalog)
     groups = catalog.GROUPS
     if ns.only:
         groups = {k: v for k, v in groups.items() if any(o in k for o in ns.only)}
@@ -344,6 +395,8 @@ def main(argv=None):
     sens.add_argument("--budget", type=float, default=20)
     sens.add_argument("--baseline", action="store_true")
     sens.add_argument("--only", nargs="*")
+    sens.add_argument("--benign", action="store_true",
+                      help="run the property-preserving refactors instead")
     ns = parser.parse_args(argv)
     if ns.cmd == "sensitivity":
         return cmd_sensitivity(ns)
